@@ -116,6 +116,7 @@ func newCreateTable(ct sql.CreateTableStmt) (*Schema, error) {
 				st.setPK([]IndexColumn{
 					{
 						Column:    c.Name,
+						Collate:   c.Collate,
 						SortOrder: c.PrimaryKeyDir,
 					},
 				})
@@ -129,6 +130,7 @@ func newCreateTable(ct sql.CreateTableStmt) (*Schema, error) {
 					[]IndexColumn{
 						{
 							Column:    c.Name,
+							Collate:   c.Collate,
 							SortOrder: c.PrimaryKeyDir,
 						},
 					},
@@ -144,6 +146,7 @@ func newCreateTable(ct sql.CreateTableStmt) (*Schema, error) {
 				[]IndexColumn{
 					{
 						Column:    c.Name,
+						Collate:   c.Collate,
 						SortOrder: sql.Asc,
 					},
 				},
